@@ -129,5 +129,7 @@ def run(tier, seed, replay=None):
         "traces_validated_against_impl": n, "samples": [cases[0]["ops"][:6]],
         "search_description": "projection recomputed from the input on the implementation's snapshots",
     })
+    import engine_props
+    engine_props.full_stage(chk, PID, tier, seed)
     chk.ev.assume("custom_data pass-through, alternates/groups in the unplanned list and timezone rendering are not modelled; truncation to whole seconds is the identity on the integer domain")
     return chk.finish()
